@@ -110,9 +110,17 @@ def history_case(rng):
         else:
             t = rng.choice(trees + [x.target for x in pool if hasattr(x, "target")])
             content = gen.gen_rows(rng, sorted(t.columns), 2)
+            new_payload = iteration.RowSequence(content)
+            held = getattr(t, "payload", None)
+            if held is not None and isinstance(t, dr.MarkerRelation) and rng.random() < 0.5:
+                # ... or the very object the relation already holds: attaching is refused all the same
+                try:
+                    content, new_payload = [dict(r) for r in held], held
+                except Exception:  # noqa: BLE001
+                    pass
             events.append(f"EvAttach {ctree(enc.dtree(t, w.reg))} {crows(content)}")
             try:
-                t.attach_payload(iteration.RowSequence(content))
+                t.attach_payload(new_payload)
                 outcomes.append("CUnit")
             except TypeError:
                 outcomes.append("CRaised TypeError")
